@@ -183,6 +183,8 @@ type Ctx struct {
 	famGuard   atomic.Int64
 	active     map[string]bool // ids of known findings with status "finding"
 	replayMode bool
+	dirty      bool
+	start      time.Time
 }
 
 const maxViolationsPerWorker = 40
@@ -286,6 +288,7 @@ func (c *Ctx) Violation(sig string, detail map[string]any, candidates ...string)
 		Sig: sig, Prop: c.Prop.ID, Family: c.Family, Index: c.Index, Seed: c.Seed, Tier: c.Tier, Mode: c.Mode,
 		Detail: detail, Count: 1,
 	})
+	c.dirty = true // written to disk right after this case: a later death of the process must not lose it
 	if c.replayMode {
 		b, _ := json.MarshalIndent(detail, "  ", "  ")
 		fmt.Printf("  violation %s\n  %s\n", sig, b)
@@ -414,6 +417,13 @@ func (c *Ctx) runCase(f *Family, fi, idx int) {
 	}
 	c.caseStart.Store(0)
 	c.journalSet(fi, idx, false)
+	c.mu.Lock()
+	dirty := c.dirty
+	c.dirty = false
+	c.mu.Unlock()
+	if dirty && !c.replayMode {
+		c.flush(c.start, false)
+	}
 }
 
 func trimStack(b []byte) string {
@@ -434,7 +444,12 @@ func RunWorker(a WorkerArgs) int {
 	}
 	c := newCtx(p, a)
 	c.inc = a.Inc
+	// Unbounded recursion ends in "fatal error: stack overflow" whatever the limit is; a smaller limit
+	// than Go's default of 1 GB only makes that end come sooner and cheaper (16 workers run in parallel).
+	// The deepest legitimate recursion (10 000 nesting levels) needs well under 100 MB.
+	debug.SetMaxStack(384 << 20)
 	start := time.Now()
+	c.start = start
 	c.lastFlush = start
 	if a.OnlyFamily == "" {
 		j, err := openJournal(fmt.Sprintf("%s/journal-%d.%d", a.Dir, a.Worker, a.Inc))
